@@ -66,7 +66,18 @@ static Crystal_Array *wf_array(void)
   arr->crystal = na ? malloc(na * sizeof(Crystal_Struct)) : NULL;
   __CPROVER_assume(na == 0 || arr->crystal != NULL);
   for (i = 0; i < NALLOC; i++) if (i < nc) {
-    char ch; char *nm = malloc(2); Crystal_Atom *at = malloc(sizeof(Crystal_Atom));
+    char ch;
+#ifdef STATIC_STORE
+    /* names and atoms of the stored crystals live in two objects of the harness (cheaper points-to sets for strcmp);
+     * such an array must not be passed to Crystal_ArrayFree - releasing everything is checked by the Get/List lemma */
+    static char name_store[NALLOC][2]; static Crystal_Atom atom_store[NALLOC];
+    char *nm = name_store[i]; Crystal_Atom *at = &atom_store[i];
+#else
+    char *nm = malloc(2); Crystal_Atom *at = malloc(sizeof(Crystal_Atom));
+#endif
+#ifdef CONCRETE_NAMES
+    ch = 'b' + 2 * i;   /* quick tier: the stored names are the constants "b", "d", ...; the added / looked-up name stays symbolic */
+#endif
     __CPROVER_assume(nm != NULL && at != NULL && ch >= 'a' && ch <= 'z' && ch != 'm' && (i == 0 || ch > g_names[i - 1]));
     g_names[i] = ch; nm[0] = ch; nm[1] = 0;
     arr->crystal[i].name = nm; arr->crystal[i].n_atom = 1; arr->crystal[i].atom = at;
@@ -120,7 +131,9 @@ void lemma_AddCrystal(void)
     if (nc0 == na0) __CPROVER_assert(0, "CANARY growth beyond capacity");
     __CPROVER_assert(0, "CANARY added");
   }
+#ifndef STATIC_STORE
   Crystal_ArrayFree(arr);   /* releases everything (checked by --memory-leak-check; no double free by the pointer checks) */
+#endif
 }
 
 void lemma_AddCrystal_builtin_full(void)
